@@ -7,7 +7,10 @@ import (
 	"fmt"
 	"os"
 	"strings"
+	"sync"
+	"sync/atomic"
 	"testing"
+	"time"
 
 	"pgregory.net/rapid"
 )
@@ -273,13 +276,19 @@ func e1Property(prop string, st *vStats) func(t *rapid.T) {
 					t.Skip("no operation enabled")
 				}
 				ops = append(ops, op)
+				e1WatchMu.Lock()
+				e1WatchOps, e1WatchCap = ops, w.cap
+				e1WatchMu.Unlock()
+				atomic.AddInt64(&e1WatchTick, 1)
 				w.stepOp(op)
 				if w.viol != nil {
 					e1Fail(t, prop, w, ops)
 				}
 			},
 		})
+		atomic.AddInt64(&e1WatchTick, 1)
 		w.finish()
+		atomic.StoreInt64(&e1WatchTick, 0)
 		st.eval()
 		if w.viol != nil {
 			e1Fail(t, prop, w, ops)
@@ -313,9 +322,41 @@ func e1Fail(t *rapid.T, prop string, w *e1World, ops []e1Op) {
 	t.Fatalf("%s violated [%s]: %s\n  cap=%d ops: %s", w.viol.Prop, w.viol.Sig, w.viol.Msg, w.cap, sb.String())
 }
 
+// e1Watch reports an operation that does not terminate (a corrupted node chain can make a LinkBuffer
+// loop for ever): the case so far is written out as a violation and the process exits.
+var (
+	e1WatchMu   sync.Mutex
+	e1WatchOps  []e1Op
+	e1WatchCap  int
+	e1WatchTick int64
+)
+
+func e1WatchStart(prop string) {
+	go func() {
+		last, lastAt := int64(-1), time.Now()
+		for {
+			time.Sleep(time.Second)
+			tk := atomic.LoadInt64(&e1WatchTick)
+			if tk != last {
+				last, lastAt = tk, time.Now()
+				continue
+			}
+			if tk > 0 && time.Since(lastAt) > 40*time.Second {
+				e1WatchMu.Lock()
+				c := e1Case{Prop: prop, Cap: e1WatchCap, Ops: append([]e1Op(nil), e1WatchOps...)}
+				e1WatchMu.Unlock()
+				vReport(vViolation{Property: prop, Slot: "hang:" + prop, Signature: "operation-does-not-terminate", Message: fmt.Sprintf("an operation did not return within 40 s (the last of %d operations of the case)", len(c.Ops)), Replay: c})
+				fmt.Println("operation does not terminate; case written to violations.json")
+				os.Exit(1)
+			}
+		}
+	}()
+}
+
 func e1Test(t *testing.T, prop string) {
 	st := newStats(prop)
 	defer st.write()
+	e1WatchStart(prop)
 	if vReplay != "" {
 		var c e1Case
 		if err := vLoadReplay(&c); err != nil {
